@@ -746,6 +746,13 @@ class Fxp():
         # scaling conversion
         self.scaled = False
         if self.scale is not None and self.bias is not None and not raw:
+            if self.bias != 0 or self.scale != 1:
+                # do the affine transformation in int64 / float64 (or Python ints): narrow or unsigned integer
+                # inputs would wrap around silently, low precision floats would round or overflow
+                if val.dtype.kind in 'iu' and val.dtype != np.int64:
+                    val = val.astype(np.int64) if val.dtype.itemsize < 8 else val.astype(object)
+                elif val.dtype.kind == 'f' and val.dtype.itemsize < 8:
+                    val = val.astype(np.float64)
             if self.bias != 0:
                 val = val - self.bias
             if self.scale != 1:
